@@ -42,8 +42,9 @@ def expected(spec, w, op, ft):
 
 def compare(need, obs):
     msgs = []
-    for name, key in (("call executions", "exec"), ("store writes", "writes"), ("store reads", "reads"),
-                      ("modified-time queries", "mt")):
+    # (which stores are asked for their modified time is not part of the statement: an implementation may query
+    # them all up front; calls, reads and writes are what it constrains)
+    for name, key in (("call executions", "exec"), ("store writes", "writes"), ("store reads", "reads")):
         exp = collections.Counter({i: 1 for i in need[key]})
         got = obs[key]
         if exp != got:
